@@ -35,6 +35,7 @@ FP = {
         "_ExpandFirstInput.pattern", "_ExpandFirstInput.check", "_ExpandFirstInput.rewrite",
         "_ExpandSecondInput.pattern", "_ExpandSecondInput.check", "_ExpandSecondInput.rewrite",
     ],
+    "onnxscript/rewriter/rules/common/_redundant_scatter_nd.py": ["ScatterAllDynamic.pattern", "ScatterAllDynamic.check", "ScatterAllDynamic.rewrite"],
     "onnxscript/rewriter/rules/common/_materialize_reshape_shape.py": [
         "MaterializeReshapeShape.check", "MaterializeReshapeShape.rewrite",
     ],
@@ -103,6 +104,40 @@ def search_helper_counterexample(kind, args, real_answer):
                 lo = np_bcast(lx, ly)
                 if lo is not None and not admits(c, sig, lo):
                     return {"binding": sig, "unnamed": unn, "why": f"symbolic broadcast {c} is not truthful for {lo}"}
+        if kind == "evShape" and real_answer not in ("none",):
+            shp, st, en = args
+            if shp is not None:
+                symtxt, consttxt = real_answer.split(" ")
+                got = dec_shape(symtxt)
+                want = M.spec_slice(shp, st, en)
+                if got != want:
+                    for sig, unn in _bindings_for([shp, got or []], limit=50):
+                        itr = iter(unn)
+                        lx = _conc(shp, sig, itr)
+                        true_out = M.spec_slice(lx, st, en)
+                        if consttxt != "N":
+                            c = [] if consttxt == "-" else [int(v) for v in consttxt.split(",")]
+                            if c != true_out:
+                                return {"binding": sig, "unnamed": unn, "input_shape": lx,
+                                        "why": f"Shape<start={st},end={en}> is replaced by the constant {c}; the operator returns {true_out}"}
+                        gl = [sig[d] if isinstance(d, str) else (2 if d is None else d) for d in (got or [])]
+                        ex = np_bcast(gl, true_out)
+                        if ex is not None and ex != gl:
+                            return {"binding": sig, "unnamed": unn, "input_shape": lx,
+                                    "why": f"recorded shape value {got} != Shape<start={st},end={en}> = {want}: Expand(y:{gl}, Shape(x)) is folded to "
+                                           f"Identity(y) of shape {gl}; the original has shape {ex}"}
+        if kind == "ruleScatterDyn" and real_answer == "T":
+            st, ax, dsh, tsh = args
+            for sig, unn in _bindings_for([dsh, tsh], limit=200):
+                itr = iter(unn)
+                ld, lt = _conc(dsh, sig, itr), _conc(tsh, sig, itr)
+                sl = M.spec_slice(ld, st or 0, None)
+                if not sl or not (-len(sl) <= ax < len(sl)) or not lt:
+                    continue
+                rows = sl[ax]
+                if rows < lt[0]:
+                    return {"binding": sig, "unnamed": unn, "data_shape": ld, "scattered_shape": lt,
+                            "why": f"ScatterND replaced by Identity(updates) although the index chain covers only rows 0..{rows - 1} of {lt[0]}"}
         if kind == "evAbs" and real_answer == "T":
             (a,) = args
             neg = [d for d in (a or []) if isinstance(d, int) and d < 0]
@@ -145,9 +180,10 @@ def search_helper_counterexample(kind, args, real_answer):
                     targets = [const]
                 else:
                     targets = [[2] + lx, [5] + lx, [3 if d == 1 else d for d in lx], [2, 3] + lx, np_bcast(lx, ly) or lx]
-                    if eo is not None:
-                        for kv in VALS:
-                            targets.append([sig.get(d, kv) if isinstance(d, str) else (kv if d is None else d) for d in eo])
+                    for ann in (eo, bo):
+                        if ann is not None:
+                            for kv in VALS:
+                                targets.append([sig.get(d, kv) if isinstance(d, str) else (kv if d is None else d) for d in ann])
                 for le in targets:
                     lE = np_bcast(lx, le)
                     if lE is None:
@@ -294,6 +330,10 @@ def parse_line_args(line):
     if kind == "expandRemovable":
         c = None if t[3] == "N" else ([] if t[3] == "-" else [int(v) for v in t[3].split(",")])
         return kind, (dec_shape(t[1]), dec_shape(t[2]), c, dec_shape(t[4]), dec_shape(t[5]))
+    if kind == "evShape":
+        return kind, (dec_shape(t[1]), int(t[2]), None if t[3] == "N" else int(t[3]))
+    if kind == "scatterDyn":
+        return "ruleScatterDyn", (None if t[1] == "N" else int(t[1]), int(t[2]), dec_shape(t[3]), dec_shape(t[4]))
     if kind == "evAbs":
         return kind, (dec_shape(t[1]),)
     if kind == "evReshape":
@@ -770,7 +810,8 @@ def main(run: core.Run) -> None:
     )
     need = ["expandRemovable:ok1", "expandRemovable:ok2", "expandRemovable:ok3", "expandRemovable:fail1", "expandRemovable:fail2",
             "expandRemovable:fail3", "dimsSuff:ok", "dimsSuff:fail", "merge:RAISE", "evGather:RAISE", "evConcat:concat",
-            "evConcat:sym", "evReshape:T", "evExpand:T", "evAbs:F", "materialize:some", "flatten:some", "flatten:N"]
+            "evConcat:sym", "evReshape:T", "evExpand:T", "evAbs:F", "materialize:some", "flatten:some", "flatten:N",
+            "ruleScatterDyn:T", "ruleScatterDyn:F", "expandRemovable:rank1", "expandRemovable:rank2"]
     missing = [b for b in need if branches.get(b, 0) == 0]
     if missing and not run.violations:
         raise core.Infra(f"generator degenerated: branches never hit: {missing}")
